@@ -102,6 +102,7 @@ pub fn add_sub<const OP: usize>(la: usize, ald: usize, alb: usize, lb_: usize, b
     let bytes = module.ckks_add_tmp_bytes().max(module.ckks_sub_tmp_bytes());
     let mut arena = Buf::<16>::sym();
     assert!(bytes <= 128, "GRID ERROR: arena");
+    set_arena(arena.bytes().as_ptr());
     let r = {
         let scratch: &mut Scratch<FFT64Ref> = Scratch::<FFT64Ref>::from_bytes(&mut arena.bytes_mut()[..bytes]);
         if OP == 0 { module.ckks_add_into(&mut dst, &a, &b, scratch) } else { module.ckks_sub_into(&mut dst, &a, &b, scratch) }
@@ -141,6 +142,7 @@ pub fn unary<const OP: usize>(ls: usize, sld: usize, slb: usize, ldst: usize, bi
     let bytes = module.ckks_mul_pow2_tmp_bytes().max(module.ckks_neg_tmp_bytes());
     let mut arena = Buf::<16>::sym();
     assert!(bytes <= 128, "GRID ERROR: arena");
+    set_arena(arena.bytes().as_ptr());
     let r = {
         let scratch: &mut Scratch<FFT64Ref> = Scratch::<FFT64Ref>::from_bytes(&mut arena.bytes_mut()[..bytes]);
         match OP {
